@@ -144,6 +144,9 @@ class Facts:
     def load(self, path):
         with open(path) as f:
             j = json.load(f)
+        return self.load_json(j)
+
+    def load_json(self, j):
         crate = j["crate"]
         self.crates.append(crate)
         self.nonces[crate] = j["nonce"]
@@ -210,9 +213,81 @@ class Facts:
         return "%s:%d" % (f, s[1])
 
 
+def _field_renames(adts):
+    """Private struct fields are addressed by name in the rules. A behaviour-preserving rename of one
+    must not orphan them: when a struct of crate `raft` no longer has a field name of the reference table
+    (raftlint/field_table.json, the tree the rules were written against) but still has the same number of
+    fields with the same types position by position, the field at that position is taken to be the renamed
+    one (only for fields that are not `pub`). Anything else is left alone and the rules fail closed."""
+    path = os.path.join(os.path.dirname(os.path.abspath(__file__)), "field_table.json")
+    if not os.path.exists(path):
+        return {}
+    ref = json.load(open(path))
+    ren = {}
+    for adt, cols in ref.items():
+        a = adts.get(adt)
+        if not a or a.get("kind") != "struct":
+            continue
+        cur = a["variants"][0]["fields"]
+        if {c[0] for c in cols} == {f["name"] for f in cur}:
+            continue
+        if len(cur) != len(cols):
+            continue
+        m = {}
+        ok = True
+        for c, f in zip(cols, cur):
+            if c[0] == f["name"]:
+                continue
+            if c[1] != f["ty"] or c[2] == "pub" or f["vis"] == "pub":
+                ok = False
+                break
+            m[f["name"]] = c[0]
+        if ok and m and not (set(m.values()) & {f["name"] for f in cur}):
+            for cn, rn in m.items():
+                ren[(adt, cn)] = rn
+    return ren
+
+
+def _apply_field_renames(js, ren):
+    by_adt = {}
+    for (adt, cn), rn in ren.items():
+        by_adt.setdefault(adt, {})[cn] = rn
+
+    def walk(o):
+        if isinstance(o, dict):
+            if "n" in o and "f" in o and o.get("adt") in by_adt and o["n"] in by_adt[o["adt"]]:
+                o["n"] = by_adt[o["adt"]][o["n"]]
+            if o.get("agg") == "adt" and o.get("adt") in by_adt and "fields" in o:
+                o["fields"] = [by_adt[o["adt"]].get(n, n) for n in o["fields"]]
+            for v in o.values():
+                walk(v)
+        elif isinstance(o, list):
+            for v in o:
+                walk(v)
+    for j in js:
+        for adt, m in by_adt.items():
+            a = j["adts"].get(adt)
+            if a:
+                for f in a["variants"][0]["fields"]:
+                    if f["name"] in m:
+                        f["name"] = m[f["name"]]
+        walk(j["fns"])
+
+
 def load_dir(d):
     facts = Facts()
     names = sorted(n for n in os.listdir(d) if n.endswith(".json"))
+    js = []
     for n in names:
-        facts.load(os.path.join(d, n))
+        with open(os.path.join(d, n)) as f:
+            js.append(json.load(f))
+    adts = {}
+    for j in js:
+        adts.update(j["adts"])
+    ren = _field_renames(adts)
+    if ren:
+        _apply_field_renames(js, ren)
+    for j in js:
+        facts.load_json(j)
+    facts.field_renames = {"%s.%s" % (adt.split("::")[-1], rn): cn for (adt, cn), rn in ren.items()}
     return facts
